@@ -12,12 +12,12 @@ from vlib.core import Result
 ID = "C11"
 LEVEL = "exploration"
 RULE = ("Hypothesis-generated hierarchies of 2-5 classes (chains, diamonds D(B,C), classes that skip the declaration) in which "
-        "each declaring level picks a type from Parameter > Number > Integer, Parameter > String or Parameter > Range and a random subset of slots "
+        "each declaring level picks a type from Parameter > Number > Integer, Parameter > String, Parameter > Range, Parameter > List or Parameter > Selector (plain slots and allow_None only) and a random subset of slots "
         "(default, doc, label, precedence, bounds, inclusive_bounds, softbounds, step, allow_None, instantiate, constant, "
         "regex, per_instance, allow_refs, pickle_default_value) with values that do or do not conflict with inherited ones; the "
         "same hierarchy is also built with add_parameter on already created classes; oracle = independent per-slot MRO "
         "resolver for every slot of every class + spec predicate deciding whether creation must fail (merged default vs merged "
-        "constraints/type; a None default re-checked only on type change). Non-trivial = >=3 declaring classes or a diamond "
+        "constraints/type; a None default re-checked only on type change) + invariant on every class that was created: its non-None default satisfies the spec predicate under the slots it actually has. Non-trivial = >=3 declaring classes or a diamond "
         "with a slot taken from a non-adjacent ancestor, or a merged-invalid default, or a type change; distinct = case hash.")
 ASSUMPTIONS = [
     "each level's own declaration is constructible on its own (otherwise the case is a constructor-time rejection: counted, no claim)",
@@ -26,7 +26,8 @@ ASSUMPTIONS = [
 SIZES = {"quick": 2500, "thorough": 15000}
 
 PT = {"Parameter": param.Parameter, "Number": param.Number, "Integer": param.Integer, "String": param.String,
-      "Range": param.Range}
+      "Range": param.Range, "List": param.List, "Selector": param.Selector}
+ITEM = {"int": int, "str": str}
 TYPE_SLOTS = {
     "Parameter": ["default", "doc", "_label", "precedence", "allow_None", "instantiate", "constant", "per_instance", "allow_refs",
                   "nested_refs", "pickle_default_value", "readonly"],
@@ -45,7 +46,14 @@ TYPE_DEFAULT["String"] = dict(TYPE_DEFAULT["Parameter"], default="", regex=None)
 TYPE_SLOTS["Range"] = TYPE_SLOTS["Parameter"] + ["bounds", "inclusive_bounds", "softbounds", "step", "length"]
 TYPE_DEFAULT["Range"] = dict(TYPE_DEFAULT["Parameter"], default=None, bounds=None, softbounds=None,
                              inclusive_bounds=(True, True), step=None, length=2)
-SUBTYPE = {("Range", "Parameter"), ("Integer", "Number"), ("Integer", "Parameter"), ("Number", "Parameter"), ("String", "Parameter")}
+TYPE_SLOTS["List"] = TYPE_SLOTS["Parameter"] + ["bounds", "item_type"]
+TYPE_DEFAULT["List"] = dict(TYPE_DEFAULT["Parameter"], default=[], bounds=(0, None), item_type=None, instantiate=True)
+# Selector: only the slots whose inheritance is plain are resolved (objects / default / check_on_set interact through
+# auto-defaults and computed values: they are covered by the validity invariant on the created class instead)
+TYPE_SLOTS["Selector"] = ["doc", "_label", "precedence", "allow_None", "instantiate", "constant", "per_instance", "allow_refs",
+                          "nested_refs", "pickle_default_value", "readonly"]
+TYPE_DEFAULT["Selector"] = dict(TYPE_DEFAULT["Parameter"], allow_None=None)
+SUBTYPE = {("List", "Parameter"), ("Selector", "Parameter"), ("Range", "Parameter"), ("Integer", "Number"), ("Integer", "Parameter"), ("Number", "Parameter"), ("String", "Parameter")}
 
 
 def _is_sub(a, b):
@@ -71,6 +79,16 @@ _range = dict(_common, **{
     "softbounds": st.sampled_from([[0, 1], [2, 8]]), "step": st.sampled_from([1, -1, 2, -2]),
 })
 _plain = dict(_common, **{"default": st.sampled_from([None, 0, 5, "a", 2.5, "b1"])})
+_listp = dict(_common, **{
+    "default": st.sampled_from([[], [1], [1, 2], [1, 2, 3], ["a"], None, [1, "a"]]),
+    "bounds": st.sampled_from([[0, 2], [1, 3], [2, None], [0, 0], [1, None]]),
+    "item_type": st.sampled_from(["int", "str"]),
+})
+_selp = dict(_common, **{
+    "default": st.sampled_from([1, 2, 5, "a", None]),
+    "objects": st.sampled_from([[1, 2, 3], [5, 6], ["a", "b"], [2, 5]]),
+    "check_on_set": st.booleans(),
+})
 
 
 @st.composite
@@ -79,11 +97,20 @@ def _decl(draw, family):
         t = draw(st.sampled_from(["Number", "Number", "Integer", "Parameter"]))
     elif family == "range":
         t = draw(st.sampled_from(["Range", "Range", "Range", "Parameter"]))
+    elif family == "list":
+        t = draw(st.sampled_from(["List", "List", "List", "Parameter"]))
+    elif family == "sel":
+        t = draw(st.sampled_from(["Selector", "Selector", "Selector", "Parameter"]))
     else:
         t = draw(st.sampled_from(["String", "String", "Parameter"]))
-    pool = {"Number": _numeric, "Integer": _numeric, "String": _string, "Parameter": _plain, "Range": _range}[t]
+    pool = {"Number": _numeric, "Integer": _numeric, "String": _string, "Parameter": _plain, "Range": _range, "List": _listp,
+            "Selector": _selp}[t]
     if family == "range" and t == "Parameter":
         pool = dict(_common, default=_range["default"])
+    if family == "list" and t == "Parameter":
+        pool = dict(_common, default=_listp["default"])
+    if family == "sel" and t == "Parameter":
+        pool = dict(_common, default=_selp["default"])
     keys = draw(st.lists(st.sampled_from(sorted(pool)), max_size=4, unique=True))
     kw = {k: draw(pool[k]) for k in keys}
     if t == "Integer" and isinstance(kw.get("default"), float):
@@ -96,7 +123,7 @@ def _decl(draw, family):
 @st.composite
 def _case(draw):
     shape = draw(st.sampled_from(["chain", "chain", "diamond", "skip"]))
-    family = draw(st.sampled_from(["num", "num", "str", "range"]))
+    family = draw(st.sampled_from(["num", "num", "str", "range", "list", "sel"]))
     if shape == "diamond":
         bases = [[], [0], [0], [1, 2]]
         n = 4
@@ -133,22 +160,43 @@ def strategy(tier):
     return _case()
 
 
-def _mk_param(decl):
+def _pyval(k, v, fam):
+    if k == "item_type":
+        return ITEM[v]
+    if fam in ("list", "sel") and k in ("objects", "default"):
+        return list(v) if isinstance(v, list) else v
+    return tuple(v) if isinstance(v, list) else v
+
+
+def _mk_param(decl, fam=None):
     t, kw = decl
-    kw = {k: (tuple(v) if isinstance(v, list) else v) for k, v in kw.items()}
+    kw = {k: _pyval(k, v, fam) for k, v in kw.items()}
     return PT[t](**kw)
+
+
+def _family_of(decls):
+    ts = {d[0] for d in decls if d is not None}
+    return "list" if "List" in ts else ("sel" if "Selector" in ts else None)
+
+
+_UNK = object()
 
 
 def execute(case):
     res = Result()
     decls = case["decls"]
     n = len(decls)
+    fam = _family_of(decls)
+    if fam is None and any(isinstance(d[1].get("default"), list) and len(d[1]["default"]) != 2 or
+                           (isinstance(d[1].get("default"), list) and any(isinstance(x, str) for x in d[1]["default"]))
+                           for d in decls if d is not None):
+        fam = "list"          # only Parameter levels were drawn in a list-family case
     # every own declaration must be constructible standalone (else: constructor-time rejection, no claim)
     for d in decls:
         if d is None:
             continue
         try:
-            _mk_param(d)
+            _mk_param(d, fam)
         except (ValueError, TypeError):
             res.dontcare += 1
             res.label("own_declaration_rejected")
@@ -170,7 +218,7 @@ def execute(case):
         if i in resolved:
             return resolved[i]
         t, kw = decls[i]
-        own = {slot_of_kw(k): (tuple(v) if isinstance(v, list) else v) for k, v in kw.items()}
+        own = {slot_of_kw(k): _pyval(k, v, fam) for k, v in kw.items()}
         anc = declaring_after(i)
         out = {}
         for slot in TYPE_SLOTS[t]:
@@ -180,6 +228,9 @@ def execute(case):
                 out[slot] = own[slot]
                 continue
             for k, j in enumerate(anc):
+                if decls[j][0] == "Selector" and slot not in TYPE_SLOTS["Selector"]:
+                    out[slot] = _UNK        # held by a Selector ancestor in a way this resolver does not model
+                    break
                 if slot in TYPE_SLOTS[decls[j][0]]:
                     out[slot] = resolve(j)[slot]
                     if k > 0 or (j not in case["bases"][i]):
@@ -189,7 +240,10 @@ def execute(case):
                 out[slot] = TYPE_DEFAULT[t][slot]
         # allow_None: recomputed from the class's own declaration
         own_default = own.get("default", TYPE_DEFAULT[t]["default"])
-        if own_default is None:
+        if t == "Selector":
+            # a Selector does not switch allow_None on for a None default: its own keyword or nothing
+            out["allow_None"] = own.get("allow_None", None)
+        elif own_default is None:
             out["allow_None"] = True
         elif "allow_None" in own:
             out["allow_None"] = own["allow_None"]
@@ -213,6 +267,8 @@ def execute(case):
         type_change = any(not _is_sub(decls[j][0], t) for j in anc)
         if type_change:
             labels.add("type_change")
+        if t == "Selector" or any(decls[j][0] == "Selector" for j in anc) or any(v is _UNK for v in r.values()):
+            return None            # objects / auto-default / computed check_on_set are not modelled: no prediction
         d = r["default"]
         cfg = {"allow_None": r["allow_None"]}
         if t in ("Number", "Integer"):
@@ -224,6 +280,10 @@ def execute(case):
             cfg["bounds"] = r["bounds"]
             cfg["inclusive"] = r["inclusive_bounds"]
             cfg["step"] = r["step"]
+        if t == "List":
+            cfg["list_bounds"] = r["bounds"]
+            if r["item_type"] is not None:
+                cfg["item_type"] = r["item_type"]
         if d is None and not type_change:
             return False
         v = specs.verdict(t, cfg, d)
@@ -242,9 +302,9 @@ def execute(case):
                 K = type(f"K{i}", bases, {})
             elif case["via_add_parameter"]:
                 K = type(f"K{i}", bases, {})
-                K.param.add_parameter("x", _mk_param(decls[i]))
+                K.param.add_parameter("x", _mk_param(decls[i], fam))
             else:
-                K = type(f"K{i}", bases, {"x": _mk_param(decls[i])})
+                K = type(f"K{i}", bases, {"x": _mk_param(decls[i], fam)})
             raised = None
         except (RuntimeError, ValueError, TypeError) as e:
             raised = e
@@ -277,12 +337,42 @@ def execute(case):
         p = K.param["x"]
         for slot, w in want.items():
             got = getattr(p, slot)
+            if w is _UNK:
+                continue
+            if decls[i][0] == "Selector" and slot == "allow_None":
+                if bool(got) != bool(w):
+                    res.fail("C11.slot_value", f"{desc}: allow_None is {got!r}, the class's own declaration says {w!r}")
+                continue
             if got != w or type(got) is not type(w):
                 res.fail("C11.slot_value", f"{desc}: slot {slot!r} is {got!r}, the resolver says {w!r}")
         if type(p) is not PT[decls[i][0]]:
             res.fail("C11.slot_value", f"{desc}: Parameter type is {type(p).__name__}")
-        if K.x != want["default"] and not (K.x is None and want["default"] is None):
+        if "default" in want and want["default"] is not _UNK and K.x != want["default"] and not (K.x is None and want["default"] is None):
             res.fail("C11.slot_value", f"{desc}: class attribute is {K.x!r}, resolver default {want['default']!r}")
+        # ---- no class exists whose non-None default contradicts its own constraints or type --------------------
+        t_ = decls[i][0]
+        d_ = p.default
+        if d_ is not None and t_ != "Parameter":
+            acfg = {"allow_None": bool(p.allow_None)}
+            if t_ in ("Number", "Integer", "Range"):
+                acfg.update(bounds=p.bounds, inclusive=p.inclusive_bounds)
+            if t_ == "Range":
+                acfg["step"] = p.step
+            if t_ == "String":
+                acfg["regex"] = p.regex
+            if t_ == "List":
+                acfg["list_bounds"] = p.bounds
+                if p.item_type is not None:
+                    acfg["item_type"] = p.item_type
+            if t_ == "Selector":
+                acfg.update(objects=list(p.objects), check_on_set=p.check_on_set)
+            try:
+                ok = specs.verdict(t_, acfg, d_)
+            except Exception:  # noqa: BLE001
+                ok = None
+            if ok is False:
+                res.fail("C11.invalid_default_exists", f"{desc}: the class exists and its default {d_!r} contradicts its own "
+                                                       f"constraints {acfg!r}")
     ndecl = sum(1 for d in decls[: (failed_at if failed_at is not None else n)] if d is not None)
     if ndecl >= 3:
         labels.add("three_declaring_classes")
